@@ -1422,6 +1422,10 @@ def fold_pointer_null_tests(f):
             elif is_null_expr(kids(x)[0]):
                 known[x["id"]] = False
         elif x["kind"] == "VarDecl" and kids(x) and str(x.get("id", "")).startswith("inl") and \
+                (x.get("type") or "").replace("const ", "").strip().startswith("enum ") and \
+                _const_value(kids(x)[0]) is not None:
+            intval[x["id"]] = _const_value(kids(x)[0])
+        elif x["kind"] == "VarDecl" and kids(x) and str(x.get("id", "")).startswith("inl") and \
                 (x.get("type") or "").replace("const ", "").strip() in ("bool", "_Bool", "int", "unsigned int"):
             # a flag parameter that was given a literal: the helper's tests of it are decided at this call
             ini = strip(kids(x)[0], casts=True)
@@ -1456,8 +1460,8 @@ def fold_pointer_null_tests(f):
         if c["kind"] == "BinaryOperator" and c.get("opcode") in ("!=", "=="):
             a0, b0 = strip(kids(c)[0], casts=True), strip(kids(c)[1], casts=True)
             for u, v in ((a0, b0), (b0, a0)):
-                if u["kind"] == "DeclRefExpr" and u["ref"].get("id") in intval and v["kind"] == "IntegerLiteral":
-                    eq = intval[u["ref"]["id"]] == int(v["value"])
+                if u["kind"] == "DeclRefExpr" and u["ref"].get("id") in intval and _const_value(v) is not None:
+                    eq = intval[u["ref"]["id"]] == _const_value(v)
                     return eq if c["opcode"] == "==" else not eq
         if c["kind"] == "UnaryOperator" and c.get("opcode") == "!":
             v = decide(kids(c)[0])
